@@ -83,7 +83,14 @@ func (r *vfRaw) DuplicateMessage(m *Message) {
 func (r *vfRaw) ThrottlePeer(p peer.ID)     { r.add(vfRawEv{Kind: "throttle", Peer: p}) }
 func (r *vfRaw) RecvRPC(rpc *RPC)            { r.add(vfRawEv{Kind: "recv", Peer: rpc.from, RPC: rpc}) }
 func (r *vfRaw) SendRPC(rpc *RPC, p peer.ID) { r.add(vfRawEv{Kind: "send", Peer: p, RPC: rpc}) }
-func (r *vfRaw) DropRPC(rpc *RPC, p peer.ID) { r.add(vfRawEv{Kind: "drop", Peer: p, RPC: rpc}) }
+func (r *vfRaw) DropRPC(rpc *RPC, p peer.ID) {
+	// the router strips gossip from a dropped RPC right after tracing it (pushControl): keep what was reported
+	cp := &RPC{from: rpc.from}
+	if b, err := rpc.Marshal(); err == nil {
+		_ = cp.Unmarshal(b)
+	}
+	r.add(vfRawEv{Kind: "drop", Peer: p, RPC: cp})
+}
 func (r *vfRaw) UndeliverableMessage(m *Message) {
 	r.add(vfRawEv{Kind: "undeliverable", Topic: m.GetTopic(), MsgID: r.mid(m)})
 }
